@@ -10,8 +10,9 @@ Local Open Scope Z_scope.
 Theorem C19_modpow_agree : forall b e m, 0 <= e -> 0 <= m -> modpow Fast b e m = modpow Default b e m.
 Proof. exact modpow_backends_agree. Qed.
 
-Theorem C19_modpow_value : forall be b e m, 0 < m -> 0 <= e -> modpow be b e m = Ok ((b ^ e) mod m).
-Proof. intros [|] b e m Hm He; [apply modpow_default | apply modpow_fast]; assumption. Qed.
+Theorem C19_modpow_value : forall b e m, 0 < m -> 0 <= e ->
+  modpow Default b e m = Ok ((b ^ e) mod m) /\ modpow Fast b e m = Ok ((b ^ e) mod m).
+Proof. intros b e m Hm He; split; [apply modpow_default | apply modpow_fast]; assumption. Qed.
 
 Theorem C19_padding_agree : forall n z, (1 <= n)%nat -> pad_to n (to_bytes_le Fast z) = pad_to n (to_bytes_le Default z).
 Proof. exact pad_to_backend. Qed.
